@@ -5,40 +5,49 @@ package asm
 // Contracts for the snesvc verifier (/verif). Comment-only; compiled only with -tags verif.
 
 //@ func (*Emitter).Len
+//@   params a
 //@   property C03
 //@   ensures ret1 == a.n
 
 //@ func (*Emitter).PC
+//@   params a
 //@   property C03
 //@   ensures ret1 == a.address
 
 //@ func (flagsTracker).IsM16bit
+//@   params t
 //@   property C03 C07
 //@   ensures ret1 == (uint8(t)&0x20 == 0)
 
 //@ func (flagsTracker).IsX16bit
+//@   params t
 //@   property C03 C07
 //@   ensures ret1 == (uint8(t)&0x10 == 0)
 
 //@ func (*flagsTracker).AssumeREP
+//@   params t c
 //@   property C03 C07
 //@   ensures *t == old(*t) &^ flagsTracker(c)
 
 //@ func (*flagsTracker).AssumeSEP
+//@   params t c
 //@   property C03 C07
 //@   ensures *t == old(*t) | flagsTracker(c)
 
 //@ func imm16
+//@   params v
 //@   property C03
 //@   ensures ret1 == uint8(v) && ret2 == uint8(v >> 8)
 
 //@ func imm24
+//@   params v
 //@   property C03
 //@   ensures ret1 == uint8(v) && ret2 == uint8(v >> 8) && ret3 == uint8(v >> 16)
 
 // ---- capacity, data blocks, labels (C19) ----
 
 //@ func (*Emitter).write
+//@   params a d
 //@   property C19
 //@   requires a.n >= 0 && a.n <= len(a.code)
 //@   panics !isnil(a.code) && a.n+len(d) > len(a.code)
@@ -51,6 +60,7 @@ package asm
 //@   assigns a.n, a.code[:]
 
 //@ func (*Emitter).EmitBytes
+//@   params a b
 //@   property C19 C15
 //@   modular
 //@   requires a.n >= 0 && a.n <= len(a.code)
@@ -91,6 +101,7 @@ package asm
 //@ define EB_PRE(a) (!isnil(a.code) && 0 <= a.n && a.n <= len(a.code) && len(a.code) <= 0x1000000 && a.address-a.base == uint32(a.n))
 
 //@ func (*Emitter).Label
+//@   params a name
 //@   property C19 C06
 //@   panics has(a.labels, name)
 //@   ensures ret1 == a.address && has(a.labels, name) && a.labels[name] == a.address
@@ -99,11 +110,13 @@ package asm
 //@   assigns a.labels, a.lines, a.baseSet
 
 //@ func (*Emitter).GetLabel
+//@   params a name
 //@   property C19
 //@   ensures ok == has(a.labels, name) && (ok ==> value == a.labels[name])
 //@   assigns nothing
 
 //@ func (*Emitter).Bytes
+//@   params a
 //@   property C19
 //@   requires a.n >= 0 && a.n <= len(a.code)
 //@   ensures len(ret1) == a.n
@@ -113,6 +126,7 @@ package asm
 // mapeq(e.X, a.X): extensional equality of two label / dangling maps is written out below for each map.
 
 //@ func (*Emitter).Clone
+//@   params a target
 //@   property C16
 //@   modular
 //@   ensures ret1.flagsTracker == a.flagsTracker && ret1.generateText == a.generateText && ret1.address == a.address && ret1.base == a.base && ret1.baseSet == a.baseSet
@@ -136,6 +150,7 @@ package asm
 //@   loop 3 modifies e.danglingU16
 
 //@ func (*Emitter).Append
+//@   params a e
 //@   property C16
 //@   modular
 //@   requires a.n >= 0 && a.n <= len(a.code) && e.n >= 0 && e.n <= len(e.code)
@@ -185,6 +200,7 @@ package asm
 //@ define WF_S8U16(a) all(l, string, all(i, int, all(m, string, all(j, int, has(a.danglingS8, l) && has(a.danglingU16, m) && 0 <= i && i < len(a.danglingS8[l]) && 0 <= j && j < len(a.danglingU16[m]) ==> OFF8(a, l, i) != OFF16(a, m, j) && OFF8(a, l, i) != OFF16(a, m, j)+1))))
 
 //@ func (*Emitter).Finalize
+//@   params a
 //@   property C06
 //@   modular
 //@   requires !isnil(a.code) && len(a.code) <= 0x1000000
@@ -231,6 +247,7 @@ package asm
 // classified: 90, uncovered by the naming grammar: none
 
 //@ func (*Emitter).REP
+//@   params a c
 //@   property C03 C19
 //@   requires a.n >= 0 && a.n <= len(a.code)
 //@   panics (!isnil(a.code) && a.n+2 > len(a.code))
@@ -246,6 +263,7 @@ package asm
 //@   assigns a.n, a.code, a.address, a.lines, a.baseSet, a.flagsTracker
 
 //@ func (*Emitter).SEP
+//@   params a c
 //@   property C03 C19
 //@   requires a.n >= 0 && a.n <= len(a.code)
 //@   panics (!isnil(a.code) && a.n+2 > len(a.code))
@@ -261,6 +279,7 @@ package asm
 //@   assigns a.n, a.code, a.address, a.lines, a.baseSet, a.flagsTracker
 
 //@ func (*Emitter).NOP
+//@   params a
 //@   property C03 C19
 //@   requires a.n >= 0 && a.n <= len(a.code)
 //@   panics (!isnil(a.code) && a.n+1 > len(a.code))
@@ -275,6 +294,7 @@ package asm
 //@   assigns a.n, a.code, a.address, a.lines, a.baseSet
 
 //@ func (*Emitter).JSR_abs
+//@   params a addr
 //@   property C03 C19
 //@   requires a.n >= 0 && a.n <= len(a.code)
 //@   panics (!isnil(a.code) && a.n+3 > len(a.code))
@@ -290,6 +310,7 @@ package asm
 //@   assigns a.n, a.code, a.address, a.lines, a.baseSet
 
 //@ func (*Emitter).JSL
+//@   params a addr
 //@   property C03 C19
 //@   requires a.n >= 0 && a.n <= len(a.code)
 //@   panics (!isnil(a.code) && a.n+4 > len(a.code))
@@ -305,6 +326,7 @@ package asm
 //@   assigns a.n, a.code, a.address, a.lines, a.baseSet
 
 //@ func (*Emitter).JSL_lhb
+//@   params a lo hi bank
 //@   property C03 C19
 //@   requires a.n >= 0 && a.n <= len(a.code)
 //@   panics (!isnil(a.code) && a.n+4 > len(a.code))
@@ -320,6 +342,7 @@ package asm
 //@   assigns a.n, a.code, a.address, a.lines, a.baseSet
 
 //@ func (*Emitter).JML
+//@   params a addr
 //@   property C03 C19
 //@   requires a.n >= 0 && a.n <= len(a.code)
 //@   panics (!isnil(a.code) && a.n+4 > len(a.code))
@@ -335,6 +358,7 @@ package asm
 //@   assigns a.n, a.code, a.address, a.lines, a.baseSet
 
 //@ func (*Emitter).RTS
+//@   params a
 //@   property C03 C19
 //@   requires a.n >= 0 && a.n <= len(a.code)
 //@   panics (!isnil(a.code) && a.n+1 > len(a.code))
@@ -349,6 +373,7 @@ package asm
 //@   assigns a.n, a.code, a.address, a.lines, a.baseSet
 
 //@ func (*Emitter).RTL
+//@   params a
 //@   property C03 C19
 //@   requires a.n >= 0 && a.n <= len(a.code)
 //@   panics (!isnil(a.code) && a.n+1 > len(a.code))
@@ -363,6 +388,7 @@ package asm
 //@   assigns a.n, a.code, a.address, a.lines, a.baseSet
 
 //@ func (*Emitter).RTI
+//@   params a
 //@   property C03 C19
 //@   requires a.n >= 0 && a.n <= len(a.code)
 //@   panics (!isnil(a.code) && a.n+1 > len(a.code))
@@ -377,6 +403,7 @@ package asm
 //@   assigns a.n, a.code, a.address, a.lines, a.baseSet
 
 //@ func (*Emitter).LDA_imm8_b
+//@   params a m
 //@   property C03 C19
 //@   requires a.n >= 0 && a.n <= len(a.code)
 //@   panics a.IsM16bit() || (!isnil(a.code) && a.n+2 > len(a.code))
@@ -392,6 +419,7 @@ package asm
 //@   assigns a.n, a.code, a.address, a.lines, a.baseSet
 
 //@ func (*Emitter).LDA_imm16_w
+//@   params a m
 //@   property C03 C19
 //@   requires a.n >= 0 && a.n <= len(a.code)
 //@   panics !a.IsM16bit() || (!isnil(a.code) && a.n+3 > len(a.code))
@@ -407,6 +435,7 @@ package asm
 //@   assigns a.n, a.code, a.address, a.lines, a.baseSet
 
 //@ func (*Emitter).LDA_imm16_lh
+//@   params a lo hi
 //@   property C03 C19
 //@   requires a.n >= 0 && a.n <= len(a.code)
 //@   panics !a.IsM16bit() || (!isnil(a.code) && a.n+3 > len(a.code))
@@ -422,6 +451,7 @@ package asm
 //@   assigns a.n, a.code, a.address, a.lines, a.baseSet
 
 //@ func (*Emitter).LDA_long
+//@   params a addr
 //@   property C03 C19
 //@   requires a.n >= 0 && a.n <= len(a.code)
 //@   panics (!isnil(a.code) && a.n+4 > len(a.code))
@@ -437,6 +467,7 @@ package asm
 //@   assigns a.n, a.code, a.address, a.lines, a.baseSet
 
 //@ func (*Emitter).LDA_abs
+//@   params a addr
 //@   property C03 C19
 //@   requires a.n >= 0 && a.n <= len(a.code)
 //@   panics (!isnil(a.code) && a.n+3 > len(a.code))
@@ -452,6 +483,7 @@ package asm
 //@   assigns a.n, a.code, a.address, a.lines, a.baseSet
 
 //@ func (*Emitter).LDA_abs_x
+//@   params a addr
 //@   property C03 C19
 //@   requires a.n >= 0 && a.n <= len(a.code)
 //@   panics (!isnil(a.code) && a.n+3 > len(a.code))
@@ -467,6 +499,7 @@ package asm
 //@   assigns a.n, a.code, a.address, a.lines, a.baseSet
 
 //@ func (*Emitter).LDA_long_x
+//@   params a addr
 //@   property C03 C19
 //@   requires a.n >= 0 && a.n <= len(a.code)
 //@   panics (!isnil(a.code) && a.n+4 > len(a.code))
@@ -482,6 +515,7 @@ package asm
 //@   assigns a.n, a.code, a.address, a.lines, a.baseSet
 
 //@ func (*Emitter).STA_long
+//@   params a addr
 //@   property C03 C19
 //@   requires a.n >= 0 && a.n <= len(a.code)
 //@   panics (!isnil(a.code) && a.n+4 > len(a.code))
@@ -497,6 +531,7 @@ package asm
 //@   assigns a.n, a.code, a.address, a.lines, a.baseSet
 
 //@ func (*Emitter).STA_abs
+//@   params a addr
 //@   property C03 C19
 //@   requires a.n >= 0 && a.n <= len(a.code)
 //@   panics (!isnil(a.code) && a.n+3 > len(a.code))
@@ -512,6 +547,7 @@ package asm
 //@   assigns a.n, a.code, a.address, a.lines, a.baseSet
 
 //@ func (*Emitter).STA_abs_x
+//@   params a addr
 //@   property C03 C19
 //@   requires a.n >= 0 && a.n <= len(a.code)
 //@   panics (!isnil(a.code) && a.n+3 > len(a.code))
@@ -527,6 +563,7 @@ package asm
 //@   assigns a.n, a.code, a.address, a.lines, a.baseSet
 
 //@ func (*Emitter).STA_dp
+//@   params a addr
 //@   property C03 C19
 //@   requires a.n >= 0 && a.n <= len(a.code)
 //@   panics (!isnil(a.code) && a.n+2 > len(a.code))
@@ -542,6 +579,7 @@ package asm
 //@   assigns a.n, a.code, a.address, a.lines, a.baseSet
 
 //@ func (*Emitter).STY_abs
+//@   params a offs
 //@   property C03 C19
 //@   requires a.n >= 0 && a.n <= len(a.code)
 //@   panics (!isnil(a.code) && a.n+3 > len(a.code))
@@ -557,6 +595,7 @@ package asm
 //@   assigns a.n, a.code, a.address, a.lines, a.baseSet
 
 //@ func (*Emitter).STY_dp
+//@   params a addr
 //@   property C03 C19
 //@   requires a.n >= 0 && a.n <= len(a.code)
 //@   panics (!isnil(a.code) && a.n+2 > len(a.code))
@@ -572,6 +611,7 @@ package asm
 //@   assigns a.n, a.code, a.address, a.lines, a.baseSet
 
 //@ func (*Emitter).STY_dp_x
+//@   params a addr
 //@   property C03 C19
 //@   requires a.n >= 0 && a.n <= len(a.code)
 //@   panics (!isnil(a.code) && a.n+2 > len(a.code))
@@ -587,6 +627,7 @@ package asm
 //@   assigns a.n, a.code, a.address, a.lines, a.baseSet
 
 //@ func (*Emitter).ORA_long
+//@   params a addr
 //@   property C03 C19
 //@   requires a.n >= 0 && a.n <= len(a.code)
 //@   panics (!isnil(a.code) && a.n+4 > len(a.code))
@@ -602,6 +643,7 @@ package asm
 //@   assigns a.n, a.code, a.address, a.lines, a.baseSet
 
 //@ func (*Emitter).ORA_imm8_b
+//@   params a m
 //@   property C03 C19
 //@   requires a.n >= 0 && a.n <= len(a.code)
 //@   panics a.IsM16bit() || (!isnil(a.code) && a.n+2 > len(a.code))
@@ -617,6 +659,7 @@ package asm
 //@   assigns a.n, a.code, a.address, a.lines, a.baseSet
 
 //@ func (*Emitter).ORA_imm16_w
+//@   params a m
 //@   property C03 C19
 //@   requires a.n >= 0 && a.n <= len(a.code)
 //@   panics !a.IsM16bit() || (!isnil(a.code) && a.n+3 > len(a.code))
@@ -632,6 +675,7 @@ package asm
 //@   assigns a.n, a.code, a.address, a.lines, a.baseSet
 
 //@ func (*Emitter).CMP_imm8_b
+//@   params a m
 //@   property C03 C19
 //@   requires a.n >= 0 && a.n <= len(a.code)
 //@   panics a.IsM16bit() || (!isnil(a.code) && a.n+2 > len(a.code))
@@ -647,6 +691,7 @@ package asm
 //@   assigns a.n, a.code, a.address, a.lines, a.baseSet
 
 //@ func (*Emitter).CMP_imm16_w
+//@   params a m
 //@   property C03 C19
 //@   requires a.n >= 0 && a.n <= len(a.code)
 //@   panics !a.IsM16bit() || (!isnil(a.code) && a.n+3 > len(a.code))
@@ -662,6 +707,7 @@ package asm
 //@   assigns a.n, a.code, a.address, a.lines, a.baseSet
 
 //@ func (*Emitter).CMP_long
+//@   params a addr
 //@   property C03 C19
 //@   requires a.n >= 0 && a.n <= len(a.code)
 //@   panics (!isnil(a.code) && a.n+4 > len(a.code))
@@ -677,6 +723,7 @@ package asm
 //@   assigns a.n, a.code, a.address, a.lines, a.baseSet
 
 //@ func (*Emitter).BNE_imm8
+//@   params a m
 //@   property C03 C19
 //@   requires a.n >= 0 && a.n <= len(a.code)
 //@   panics (!isnil(a.code) && a.n+2 > len(a.code))
@@ -692,6 +739,7 @@ package asm
 //@   assigns a.n, a.code, a.address, a.lines, a.baseSet
 
 //@ func (*Emitter).BNE
+//@   params a label
 //@   property C03 C19
 //@   requires a.n >= 0 && a.n <= len(a.code)
 //@   panics (!isnil(a.code) && a.n+2 > len(a.code))
@@ -707,6 +755,7 @@ package asm
 //@   assigns a.n, a.code, a.address, a.lines, a.baseSet, a.danglingS8
 
 //@ func (*Emitter).BEQ_imm8
+//@   params a m
 //@   property C03 C19
 //@   requires a.n >= 0 && a.n <= len(a.code)
 //@   panics (!isnil(a.code) && a.n+2 > len(a.code))
@@ -722,6 +771,7 @@ package asm
 //@   assigns a.n, a.code, a.address, a.lines, a.baseSet
 
 //@ func (*Emitter).BEQ
+//@   params a label
 //@   property C03 C19
 //@   requires a.n >= 0 && a.n <= len(a.code)
 //@   panics (!isnil(a.code) && a.n+2 > len(a.code))
@@ -737,6 +787,7 @@ package asm
 //@   assigns a.n, a.code, a.address, a.lines, a.baseSet, a.danglingS8
 
 //@ func (*Emitter).BPL_imm8
+//@   params a m
 //@   property C03 C19
 //@   requires a.n >= 0 && a.n <= len(a.code)
 //@   panics (!isnil(a.code) && a.n+2 > len(a.code))
@@ -752,6 +803,7 @@ package asm
 //@   assigns a.n, a.code, a.address, a.lines, a.baseSet
 
 //@ func (*Emitter).BPL
+//@   params a label
 //@   property C03 C19
 //@   requires a.n >= 0 && a.n <= len(a.code)
 //@   panics (!isnil(a.code) && a.n+2 > len(a.code))
@@ -767,6 +819,7 @@ package asm
 //@   assigns a.n, a.code, a.address, a.lines, a.baseSet, a.danglingS8
 
 //@ func (*Emitter).BMI
+//@   params a label
 //@   property C03 C19
 //@   requires a.n >= 0 && a.n <= len(a.code)
 //@   panics (!isnil(a.code) && a.n+2 > len(a.code))
@@ -782,6 +835,7 @@ package asm
 //@   assigns a.n, a.code, a.address, a.lines, a.baseSet, a.danglingS8
 
 //@ func (*Emitter).BCC
+//@   params a label
 //@   property C03 C19
 //@   requires a.n >= 0 && a.n <= len(a.code)
 //@   panics (!isnil(a.code) && a.n+2 > len(a.code))
@@ -797,6 +851,7 @@ package asm
 //@   assigns a.n, a.code, a.address, a.lines, a.baseSet, a.danglingS8
 
 //@ func (*Emitter).BCS
+//@   params a label
 //@   property C03 C19
 //@   requires a.n >= 0 && a.n <= len(a.code)
 //@   panics (!isnil(a.code) && a.n+2 > len(a.code))
@@ -812,6 +867,7 @@ package asm
 //@   assigns a.n, a.code, a.address, a.lines, a.baseSet, a.danglingS8
 
 //@ func (*Emitter).BRA_imm8
+//@   params a m
 //@   property C03 C19
 //@   requires a.n >= 0 && a.n <= len(a.code)
 //@   panics (!isnil(a.code) && a.n+2 > len(a.code))
@@ -827,6 +883,7 @@ package asm
 //@   assigns a.n, a.code, a.address, a.lines, a.baseSet
 
 //@ func (*Emitter).BRA
+//@   params a label
 //@   property C03 C19
 //@   requires a.n >= 0 && a.n <= len(a.code)
 //@   panics (!isnil(a.code) && a.n+2 > len(a.code))
@@ -842,6 +899,7 @@ package asm
 //@   assigns a.n, a.code, a.address, a.lines, a.baseSet, a.danglingS8
 
 //@ func (*Emitter).JMP_abs
+//@   params a label
 //@   property C03 C19
 //@   requires a.n >= 0 && a.n <= len(a.code)
 //@   panics (!isnil(a.code) && a.n+3 > len(a.code))
@@ -857,6 +915,7 @@ package asm
 //@   assigns a.n, a.code, a.address, a.lines, a.baseSet, a.danglingU16
 
 //@ func (*Emitter).JMP_abs_imm16_w
+//@   params a m
 //@   property C03 C19
 //@   requires a.n >= 0 && a.n <= len(a.code)
 //@   panics (!isnil(a.code) && a.n+3 > len(a.code))
@@ -872,6 +931,7 @@ package asm
 //@   assigns a.n, a.code, a.address, a.lines, a.baseSet
 
 //@ func (*Emitter).ADC_imm8_b
+//@   params a m
 //@   property C03 C19
 //@   requires a.n >= 0 && a.n <= len(a.code)
 //@   panics a.IsM16bit() || (!isnil(a.code) && a.n+2 > len(a.code))
@@ -887,6 +947,7 @@ package asm
 //@   assigns a.n, a.code, a.address, a.lines, a.baseSet
 
 //@ func (*Emitter).CPY_imm8_b
+//@   params a m
 //@   property C03 C19
 //@   requires a.n >= 0 && a.n <= len(a.code)
 //@   panics a.IsX16bit() || (!isnil(a.code) && a.n+2 > len(a.code))
@@ -902,6 +963,7 @@ package asm
 //@   assigns a.n, a.code, a.address, a.lines, a.baseSet
 
 //@ func (*Emitter).LDY_abs
+//@   params a offs
 //@   property C03 C19
 //@   requires a.n >= 0 && a.n <= len(a.code)
 //@   panics (!isnil(a.code) && a.n+3 > len(a.code))
@@ -917,6 +979,7 @@ package asm
 //@   assigns a.n, a.code, a.address, a.lines, a.baseSet
 
 //@ func (*Emitter).STZ_dp
+//@   params a offs
 //@   property C03 C19
 //@   requires a.n >= 0 && a.n <= len(a.code)
 //@   panics (!isnil(a.code) && a.n+2 > len(a.code))
@@ -932,6 +995,7 @@ package asm
 //@   assigns a.n, a.code, a.address, a.lines, a.baseSet
 
 //@ func (*Emitter).STZ_abs
+//@   params a offs
 //@   property C03 C19
 //@   requires a.n >= 0 && a.n <= len(a.code)
 //@   panics (!isnil(a.code) && a.n+3 > len(a.code))
@@ -947,6 +1011,7 @@ package asm
 //@   assigns a.n, a.code, a.address, a.lines, a.baseSet
 
 //@ func (*Emitter).STZ_abs_x
+//@   params a addr
 //@   property C03 C19
 //@   requires a.n >= 0 && a.n <= len(a.code)
 //@   panics (!isnil(a.code) && a.n+3 > len(a.code))
@@ -962,6 +1027,7 @@ package asm
 //@   assigns a.n, a.code, a.address, a.lines, a.baseSet
 
 //@ func (*Emitter).INC_dp
+//@   params a addr
 //@   property C03 C19
 //@   requires a.n >= 0 && a.n <= len(a.code)
 //@   panics (!isnil(a.code) && a.n+2 > len(a.code))
@@ -977,6 +1043,7 @@ package asm
 //@   assigns a.n, a.code, a.address, a.lines, a.baseSet
 
 //@ func (*Emitter).INC_abs
+//@   params a offs
 //@   property C03 C19
 //@   requires a.n >= 0 && a.n <= len(a.code)
 //@   panics (!isnil(a.code) && a.n+3 > len(a.code))
@@ -992,6 +1059,7 @@ package asm
 //@   assigns a.n, a.code, a.address, a.lines, a.baseSet
 
 //@ func (*Emitter).DEC_dp
+//@   params a addr
 //@   property C03 C19
 //@   requires a.n >= 0 && a.n <= len(a.code)
 //@   panics (!isnil(a.code) && a.n+2 > len(a.code))
@@ -1007,6 +1075,7 @@ package asm
 //@   assigns a.n, a.code, a.address, a.lines, a.baseSet
 
 //@ func (*Emitter).DEC_abs
+//@   params a offs
 //@   property C03 C19
 //@   requires a.n >= 0 && a.n <= len(a.code)
 //@   panics (!isnil(a.code) && a.n+3 > len(a.code))
@@ -1022,6 +1091,7 @@ package asm
 //@   assigns a.n, a.code, a.address, a.lines, a.baseSet
 
 //@ func (*Emitter).LDA_dp
+//@   params a addr
 //@   property C03 C19
 //@   requires a.n >= 0 && a.n <= len(a.code)
 //@   panics (!isnil(a.code) && a.n+2 > len(a.code))
@@ -1037,6 +1107,7 @@ package asm
 //@   assigns a.n, a.code, a.address, a.lines, a.baseSet
 
 //@ func (*Emitter).LDX_imm8_b
+//@   params a m
 //@   property C03 C19
 //@   requires a.n >= 0 && a.n <= len(a.code)
 //@   panics a.IsX16bit() || (!isnil(a.code) && a.n+2 > len(a.code))
@@ -1052,6 +1123,7 @@ package asm
 //@   assigns a.n, a.code, a.address, a.lines, a.baseSet
 
 //@ func (*Emitter).LDX_abs
+//@   params a offs
 //@   property C03 C19
 //@   requires a.n >= 0 && a.n <= len(a.code)
 //@   panics (!isnil(a.code) && a.n+3 > len(a.code))
@@ -1067,6 +1139,7 @@ package asm
 //@   assigns a.n, a.code, a.address, a.lines, a.baseSet
 
 //@ func (*Emitter).STX_abs
+//@   params a offs
 //@   property C03 C19
 //@   requires a.n >= 0 && a.n <= len(a.code)
 //@   panics (!isnil(a.code) && a.n+3 > len(a.code))
@@ -1082,6 +1155,7 @@ package asm
 //@   assigns a.n, a.code, a.address, a.lines, a.baseSet
 
 //@ func (*Emitter).DEX
+//@   params a
 //@   property C03 C19
 //@   requires a.n >= 0 && a.n <= len(a.code)
 //@   panics (!isnil(a.code) && a.n+1 > len(a.code))
@@ -1096,6 +1170,7 @@ package asm
 //@   assigns a.n, a.code, a.address, a.lines, a.baseSet
 
 //@ func (*Emitter).DEY
+//@   params a
 //@   property C03 C19
 //@   requires a.n >= 0 && a.n <= len(a.code)
 //@   panics (!isnil(a.code) && a.n+1 > len(a.code))
@@ -1110,6 +1185,7 @@ package asm
 //@   assigns a.n, a.code, a.address, a.lines, a.baseSet
 
 //@ func (*Emitter).AND_imm8_b
+//@   params a m
 //@   property C03 C19
 //@   requires a.n >= 0 && a.n <= len(a.code)
 //@   panics a.IsM16bit() || (!isnil(a.code) && a.n+2 > len(a.code))
@@ -1125,6 +1201,7 @@ package asm
 //@   assigns a.n, a.code, a.address, a.lines, a.baseSet
 
 //@ func (*Emitter).AND_imm16_w
+//@   params a m
 //@   property C03 C19
 //@   requires a.n >= 0 && a.n <= len(a.code)
 //@   panics !a.IsM16bit() || (!isnil(a.code) && a.n+3 > len(a.code))
@@ -1140,6 +1217,7 @@ package asm
 //@   assigns a.n, a.code, a.address, a.lines, a.baseSet
 
 //@ func (*Emitter).PHB
+//@   params a
 //@   property C03 C19
 //@   requires a.n >= 0 && a.n <= len(a.code)
 //@   panics (!isnil(a.code) && a.n+1 > len(a.code))
@@ -1154,6 +1232,7 @@ package asm
 //@   assigns a.n, a.code, a.address, a.lines, a.baseSet
 
 //@ func (*Emitter).PHA
+//@   params a
 //@   property C03 C19
 //@   requires a.n >= 0 && a.n <= len(a.code)
 //@   panics (!isnil(a.code) && a.n+1 > len(a.code))
@@ -1168,6 +1247,7 @@ package asm
 //@   assigns a.n, a.code, a.address, a.lines, a.baseSet
 
 //@ func (*Emitter).PHX
+//@   params a
 //@   property C03 C19
 //@   requires a.n >= 0 && a.n <= len(a.code)
 //@   panics (!isnil(a.code) && a.n+1 > len(a.code))
@@ -1182,6 +1262,7 @@ package asm
 //@   assigns a.n, a.code, a.address, a.lines, a.baseSet
 
 //@ func (*Emitter).PHY
+//@   params a
 //@   property C03 C19
 //@   requires a.n >= 0 && a.n <= len(a.code)
 //@   panics (!isnil(a.code) && a.n+1 > len(a.code))
@@ -1196,6 +1277,7 @@ package asm
 //@   assigns a.n, a.code, a.address, a.lines, a.baseSet
 
 //@ func (*Emitter).PHP
+//@   params a
 //@   property C03 C19
 //@   requires a.n >= 0 && a.n <= len(a.code)
 //@   panics (!isnil(a.code) && a.n+1 > len(a.code))
@@ -1210,6 +1292,7 @@ package asm
 //@   assigns a.n, a.code, a.address, a.lines, a.baseSet
 
 //@ func (*Emitter).PHD
+//@   params a
 //@   property C03 C19
 //@   requires a.n >= 0 && a.n <= len(a.code)
 //@   panics (!isnil(a.code) && a.n+1 > len(a.code))
@@ -1224,6 +1307,7 @@ package asm
 //@   assigns a.n, a.code, a.address, a.lines, a.baseSet
 
 //@ func (*Emitter).PHK
+//@   params a
 //@   property C03 C19
 //@   requires a.n >= 0 && a.n <= len(a.code)
 //@   panics (!isnil(a.code) && a.n+1 > len(a.code))
@@ -1238,6 +1322,7 @@ package asm
 //@   assigns a.n, a.code, a.address, a.lines, a.baseSet
 
 //@ func (*Emitter).TCD
+//@   params a
 //@   property C03 C19
 //@   requires a.n >= 0 && a.n <= len(a.code)
 //@   panics (!isnil(a.code) && a.n+1 > len(a.code))
@@ -1252,6 +1337,7 @@ package asm
 //@   assigns a.n, a.code, a.address, a.lines, a.baseSet
 
 //@ func (*Emitter).PLD
+//@   params a
 //@   property C03 C19
 //@   requires a.n >= 0 && a.n <= len(a.code)
 //@   panics (!isnil(a.code) && a.n+1 > len(a.code))
@@ -1266,6 +1352,7 @@ package asm
 //@   assigns a.n, a.code, a.address, a.lines, a.baseSet
 
 //@ func (*Emitter).PLP
+//@   params a
 //@   property C03 C19
 //@   requires a.n >= 0 && a.n <= len(a.code)
 //@   panics (!isnil(a.code) && a.n+1 > len(a.code))
@@ -1280,6 +1367,7 @@ package asm
 //@   assigns a.n, a.code, a.address, a.lines, a.baseSet
 
 //@ func (*Emitter).PLY
+//@   params a
 //@   property C03 C19
 //@   requires a.n >= 0 && a.n <= len(a.code)
 //@   panics (!isnil(a.code) && a.n+1 > len(a.code))
@@ -1294,6 +1382,7 @@ package asm
 //@   assigns a.n, a.code, a.address, a.lines, a.baseSet
 
 //@ func (*Emitter).PLX
+//@   params a
 //@   property C03 C19
 //@   requires a.n >= 0 && a.n <= len(a.code)
 //@   panics (!isnil(a.code) && a.n+1 > len(a.code))
@@ -1308,6 +1397,7 @@ package asm
 //@   assigns a.n, a.code, a.address, a.lines, a.baseSet
 
 //@ func (*Emitter).PLA
+//@   params a
 //@   property C03 C19
 //@   requires a.n >= 0 && a.n <= len(a.code)
 //@   panics (!isnil(a.code) && a.n+1 > len(a.code))
@@ -1322,6 +1412,7 @@ package asm
 //@   assigns a.n, a.code, a.address, a.lines, a.baseSet
 
 //@ func (*Emitter).PLB
+//@   params a
 //@   property C03 C19
 //@   requires a.n >= 0 && a.n <= len(a.code)
 //@   panics (!isnil(a.code) && a.n+1 > len(a.code))
@@ -1336,6 +1427,7 @@ package asm
 //@   assigns a.n, a.code, a.address, a.lines, a.baseSet
 
 //@ func (*Emitter).LDX_imm16_w
+//@   params a m
 //@   property C03 C19
 //@   requires a.n >= 0 && a.n <= len(a.code)
 //@   panics !a.IsX16bit() || (!isnil(a.code) && a.n+3 > len(a.code))
@@ -1351,6 +1443,7 @@ package asm
 //@   assigns a.n, a.code, a.address, a.lines, a.baseSet
 
 //@ func (*Emitter).LDY_imm16_w
+//@   params a m
 //@   property C03 C19
 //@   requires a.n >= 0 && a.n <= len(a.code)
 //@   panics !a.IsX16bit() || (!isnil(a.code) && a.n+3 > len(a.code))
@@ -1366,6 +1459,7 @@ package asm
 //@   assigns a.n, a.code, a.address, a.lines, a.baseSet
 
 //@ func (*Emitter).LDY_imm8_b
+//@   params a m
 //@   property C03 C19
 //@   requires a.n >= 0 && a.n <= len(a.code)
 //@   panics a.IsX16bit() || (!isnil(a.code) && a.n+2 > len(a.code))
@@ -1381,6 +1475,7 @@ package asm
 //@   assigns a.n, a.code, a.address, a.lines, a.baseSet
 
 //@ func (*Emitter).MVN
+//@   params a destBank srcBank
 //@   property C03 C19
 //@   requires a.n >= 0 && a.n <= len(a.code)
 //@   panics (!isnil(a.code) && a.n+3 > len(a.code))
@@ -1396,6 +1491,7 @@ package asm
 //@   assigns a.n, a.code, a.address, a.lines, a.baseSet
 
 //@ func (*Emitter).JMP_indirect
+//@   params a addr
 //@   property C03 C19
 //@   requires a.n >= 0 && a.n <= len(a.code)
 //@   panics (!isnil(a.code) && a.n+3 > len(a.code))
@@ -1411,6 +1507,7 @@ package asm
 //@   assigns a.n, a.code, a.address, a.lines, a.baseSet
 
 //@ func (*Emitter).XBA
+//@   params a
 //@   property C03 C19
 //@   requires a.n >= 0 && a.n <= len(a.code)
 //@   panics (!isnil(a.code) && a.n+1 > len(a.code))
@@ -1425,6 +1522,7 @@ package asm
 //@   assigns a.n, a.code, a.address, a.lines, a.baseSet
 
 //@ func (*Emitter).SEI
+//@   params a
 //@   property C03 C19
 //@   requires a.n >= 0 && a.n <= len(a.code)
 //@   panics (!isnil(a.code) && a.n+1 > len(a.code))
@@ -1439,6 +1537,7 @@ package asm
 //@   assigns a.n, a.code, a.address, a.lines, a.baseSet
 
 //@ func (*Emitter).CLI
+//@   params a
 //@   property C03 C19
 //@   requires a.n >= 0 && a.n <= len(a.code)
 //@   panics (!isnil(a.code) && a.n+1 > len(a.code))
@@ -1453,6 +1552,7 @@ package asm
 //@   assigns a.n, a.code, a.address, a.lines, a.baseSet
 
 //@ func (*Emitter).WDM
+//@   params a m
 //@   property C03 C19
 //@   requires a.n >= 0 && a.n <= len(a.code)
 //@   panics (!isnil(a.code) && a.n+2 > len(a.code))
@@ -1468,6 +1568,7 @@ package asm
 //@   assigns a.n, a.code, a.address, a.lines, a.baseSet
 
 //@ func (*Emitter).CLC
+//@   params a
 //@   property C03 C19
 //@   requires a.n >= 0 && a.n <= len(a.code)
 //@   panics (!isnil(a.code) && a.n+1 > len(a.code))
@@ -1482,6 +1583,7 @@ package asm
 //@   assigns a.n, a.code, a.address, a.lines, a.baseSet
 
 //@ func (*Emitter).STP
+//@   params a
 //@   property C03 C19
 //@   requires a.n >= 0 && a.n <= len(a.code)
 //@   panics (!isnil(a.code) && a.n+1 > len(a.code))
@@ -1496,6 +1598,7 @@ package asm
 //@   assigns a.n, a.code, a.address, a.lines, a.baseSet
 
 //@ func (*Emitter).TXA
+//@   params a
 //@   property C03 C19
 //@   requires a.n >= 0 && a.n <= len(a.code)
 //@   panics (!isnil(a.code) && a.n+1 > len(a.code))
@@ -1510,6 +1613,7 @@ package asm
 //@   assigns a.n, a.code, a.address, a.lines, a.baseSet
 
 //@ func (*Emitter).TAX
+//@   params a
 //@   property C03 C19
 //@   requires a.n >= 0 && a.n <= len(a.code)
 //@   panics (!isnil(a.code) && a.n+1 > len(a.code))
@@ -1524,6 +1628,7 @@ package asm
 //@   assigns a.n, a.code, a.address, a.lines, a.baseSet
 
 //@ func (*Emitter).SBC_imm8_b
+//@   params a m
 //@   property C03 C19
 //@   requires a.n >= 0 && a.n <= len(a.code)
 //@   panics a.IsM16bit() || (!isnil(a.code) && a.n+2 > len(a.code))
@@ -1539,6 +1644,7 @@ package asm
 //@   assigns a.n, a.code, a.address, a.lines, a.baseSet
 
 //@ func (*Emitter).ASL
+//@   params a
 //@   property C03 C19
 //@   requires a.n >= 0 && a.n <= len(a.code)
 //@   panics (!isnil(a.code) && a.n+1 > len(a.code))
@@ -1574,6 +1680,7 @@ package asm
 // record is written as exactly its bytes code[off : off+byteCount], in order, as "0xHH," tokens separated by one
 // space; an instruction line continues with blanks up to a "//" comment at column 24, a data line ends there.
 //@ func (*Emitter).WriteHexTo
+//@   params a w
 //@   property C15
 //@   requires TILES(a)
 //@   ensures lineIns1 == 0 && lineIns2 == 1 && lineIns2Label == 2 && lineIns3 == 3 && lineIns3Label == 4 && lineIns4 == 5 && lineBase == 6 && lineDB == 7 && lineComment == 8 && lineLabel == 9
@@ -1603,6 +1710,7 @@ package asm
 // byte; an instruction record (without an undefined-label warning) ends with "; $AAAAAA  b0 b1 ..": the address of
 // its first byte and exactly its bytes code[off : off+byteCount].
 //@ func (*Emitter).WriteTextTo
+//@   params a w
 //@   property C15
 //@   requires TILES(a)
 //@   assigns nothing
